@@ -342,6 +342,14 @@ impl Sandbox {
         )
     }
 
+    pub fn real_git_full(&mut self, cwd: &Path, args: &[&str], stdin: Option<&[u8]>, env: &[(&str, &str)]) -> Out {
+        let mut a: Vec<OsString> = vec!["-c".into(), "core.hooksPath=/dev/null".into()];
+        a.extend(Self::os_args(args));
+        let mut e: Vec<(&str, &str)> = vec![("GITAI_SKIP_MANAGED_HOOKS", "1"), ("GIT_AI_SKIP_ALL_HOOKS", "1")];
+        e.extend_from_slice(env);
+        self.run_raw(Path::new(REAL_GIT), None, cwd, &a, stdin, &e)
+    }
+
     /// `git-ai <sub-command>`
     pub fn git_ai(&mut self, cwd: &Path, args: &[&str]) -> Out {
         let a = Self::os_args(args);
